@@ -22,6 +22,9 @@ def pj(obj, oids):
         # the leaf default as every reader of an unwritten point sees it
         with contextlib.suppress(Exception):
             r["dflt"] = repr(Payload.get(obj.getDefault()))
+        # the declarations a tensor carries besides its tree: per-rank formats, shape, rank ids, name, mutability (as text)
+        with contextlib.suppress(Exception):
+            r["decl"] = repr([[obj.getFormat(x) for x in obj.getRankIds()], obj.getShape(authoritative=True), obj.getRankIds(), obj.getName(), obj.isMutable()])
         return r
     return {"rank0": 0, "root": proj.proj_fiber(obj, None, oids, mode="seqflat"), "ranks": [], "dflt": repr(Payload.get(obj.getDefault())) if not isinstance(Payload.get(obj.getDefault()), type) else "Fiber"}
 
@@ -266,6 +269,10 @@ def execute(case):
         t2 = proj.build_tensor(case.get("tree2", case["tree"]), IDS[:depth], shape=[6] * depth, name="T2", default=dfl)
         if case.get("flat") and t2.getRoot().coords:
             t2 = prep(case, t2)
+        if case.get("ufmt") is not None and case["kind"] == "observer":
+            # a rank of the first operand is declared uncompressed (the second one keeps the default): declarations are part of the operand's state
+            with contextlib.suppress(Exception):
+                t.setFormat(t.getRankIds()[case["ufmt"] % len(t.getRankIds())], "U")
         keep = []
         out["pre"] = pj(t, oids)
         if case["kind"] == "observer":
